@@ -51,6 +51,11 @@ def reachMany (f : Nat → List (Nat × Nat × Nat)) (sz a : Nat) : Nat → List
   | 0 => []
   | n + 1 => f a ++ reachMany f sz (a + sz) n
 
+/-- `f` holds at `n` consecutive elements of size `sz` -/
+def allMany (f : Nat → Bool) (sz a : Nat) : Nat → Bool
+  | 0 => true
+  | n + 1 => f a && allMany f sz (a + sz) n
+
 mutual
 /-- heap blocks (addr, size, align) reachable from a value of type `t` stored at `a` (spec layout).
 `skipFlist = true` ignores everything below a fixed-length list — what a cleanup that does nothing
@@ -92,6 +97,82 @@ def reachCase (skipFlist : Bool) (p : Nat) (m : Mem) : List (Option Ty) → Nat 
   | [], _, _ => []
   | c :: _, 0, a => reachOpt skipFlist p m c a
   | _ :: cs, i + 1, a => reachCase skipFlist p m cs i a
+end
+
+mutual
+/-- heap blocks released by a complete lists-only cleanup of the value of type `t` stored at `a`, in
+release order (the buffers of a list's elements before the list's own buffer).  Spec side of C03:
+defined by the memory layout only. -/
+def cleanupBlocks (p : Nat) (m : Mem) : Ty → Nat → List (Nat × Nat × Nat)
+  | .string, a => [(m.loadLE a p, m.loadLE (a + p) p, 1)]
+  | .list e, a =>
+      let ptr := m.loadLE a p
+      let n := m.loadLE (a + p) p
+      reachMany (cleanupBlocks p m e) (elemSize p e) ptr n ++ [(ptr, n * elemSize p e, alignment p e)]
+  | .map k v, a =>
+      let ptr := m.loadLE a p
+      let n := m.loadLE (a + p) p
+      let esz := elemSize p (.tuple [k, v])
+      let vo := alignTo (elemSize p k) (alignment p v)
+      reachMany (fun b => cleanupBlocks p m k b ++ cleanupBlocks p m v (b + vo)) esz ptr n
+        ++ [(ptr, n * esz, alignment p (.tuple [k, v]))]
+  | .flist e n, a => reachMany (cleanupBlocks p m e) (elemSize p e) a n
+  | .record fs, a => cleanupFields p m fs a 0
+  | .tuple ts, a => cleanupFields p m ts a 0
+  | .variant cs, a =>
+      let tag := discriminant cs.length
+      cleanupCase p m cs (m.loadLE a tag.size) (a + payloadOffset p tag cs)
+  | .option t, a =>
+      if m.loadLE a 1 == 1 then cleanupBlocks p m t (a + payloadOffset p .u8 [none, some t]) else []
+  | .result ok err, a =>
+      let po := a + payloadOffset p .u8 [ok, err]
+      if m.loadLE a 1 == 0 then cleanupOpt p m ok po else if m.loadLE a 1 == 1 then cleanupOpt p m err po else []
+  | _, _ => []
+def cleanupFields (p : Nat) (m : Mem) : List Ty → Nat → Nat → List (Nat × Nat × Nat)
+  | [], _, _ => []
+  | t :: ts, a, cur =>
+      let o := alignTo cur (alignment p t)
+      cleanupBlocks p m t (a + o) ++ cleanupFields p m ts a (o + elemSize p t)
+def cleanupOpt (p : Nat) (m : Mem) : Option Ty → Nat → List (Nat × Nat × Nat)
+  | none, _ => []
+  | some t, a => cleanupBlocks p m t a
+def cleanupCase (p : Nat) (m : Mem) : List (Option Ty) → Nat → Nat → List (Nat × Nat × Nat)
+  | [], _, _ => []
+  | c :: _, 0, a => cleanupOpt p m c a
+  | _ :: cs, i + 1, a => cleanupCase p m cs i a
+end
+
+mutual
+/-- every discriminant the cleanup inspects is in range (what a successful `Spec.load` guarantees) -/
+def validDiscs (p : Nat) (m : Mem) : Ty → Nat → Bool
+  | .list e, a => allMany (validDiscs p m e) (elemSize p e) (m.loadLE a p) (m.loadLE (a + p) p)
+  | .map k v, a =>
+      let vo := alignTo (elemSize p k) (alignment p v)
+      allMany (fun b => validDiscs p m k b && validDiscs p m v (b + vo)) (elemSize p (.tuple [k, v]))
+        (m.loadLE a p) (m.loadLE (a + p) p)
+  | .record fs, a => validFields p m fs a 0
+  | .tuple ts, a => validFields p m ts a 0
+  | .variant cs, a =>
+      let tag := discriminant cs.length
+      m.loadLE a tag.size < cs.length && validCase p m cs (m.loadLE a tag.size) (a + payloadOffset p tag cs)
+  | .option t, a =>
+      m.loadLE a 1 < 2 && (m.loadLE a 1 != 1 || validDiscs p m t (a + payloadOffset p .u8 [none, some t]))
+  | .result ok err, a =>
+      let po := a + payloadOffset p .u8 [ok, err]
+      m.loadLE a 1 < 2 && (if m.loadLE a 1 == 0 then validOpt p m ok po else validOpt p m err po)
+  | _, _ => true
+def validFields (p : Nat) (m : Mem) : List Ty → Nat → Nat → Bool
+  | [], _, _ => true
+  | t :: ts, a, cur =>
+      let o := alignTo cur (alignment p t)
+      validDiscs p m t (a + o) && validFields p m ts a (o + elemSize p t)
+def validOpt (p : Nat) (m : Mem) : Option Ty → Nat → Bool
+  | none, _ => true
+  | some t, a => validDiscs p m t a
+def validCase (p : Nat) (m : Mem) : List (Option Ty) → Nat → Nat → Bool
+  | [], _, _ => true
+  | c :: _, 0, a => validOpt p m c a
+  | _ :: cs, i + 1, a => validCase p m cs i a
 end
 
 mutual
@@ -181,6 +262,9 @@ def checkDealloc (p : Nat) (own indirect : Bool) (t : Ty) (v : Val) (b : Block) 
   | none => "FAIL machine-stuck"
   | some (_, s) =>
     let wantDrops := if own then ownedHandles t v else []
+    -- spec-internal consistency tying `cleanupBlocks` (C03 theorem) to what the spec allocated
+    if indirect && sortBlocks (cleanupBlocks p st.mem t (match inputs with | [.c a] => a.bits | _ => 0)) != sortBlocks expected then
+      "FAIL spec-inconsistency cleanupBlocks≠allocated" else
     let blocksOk := sortBlocks s.freed == sortBlocks expected
     let dropsOk := s.dropped.mergeSort == wantDrops.mergeSort
     if blocksOk && dropsOk then "ok"
